@@ -83,7 +83,12 @@ fn check_markers(o: &Obs, p: usize, r: &Response, what: &str) -> Result<(), Stri
 /// perform one step observationally: no expectation about the status, only bookkeeping of what
 /// the person learned from its own responses, and the marker invariant
 fn perform(o: &mut Obs, cl: &Client, jar: &mut Jar, step: &Step, p: usize) -> Result<(), String> {
-    let what = format!("{step:?} (person {p})");
+    perform_on(o, cl, jar, step, p, p)
+}
+
+/// as `perform`; `sess` = index of the session (cookie jar) used: a person may hold several
+fn perform_on(o: &mut Obs, cl: &Client, jar: &mut Jar, step: &Step, p: usize, sess: usize) -> Result<(), String> {
+    let what = format!("{step:?} (person {p}{})", if sess != p { ", second session" } else { "" });
     match step {
         Step::Register { u, w, .. } => {
             let (un, pw) = (o.uname(*u), o.pw(p, *w));
@@ -101,13 +106,13 @@ fn perform(o: &mut Obs, cl: &Client, jar: &mut Jar, step: &Step, p: usize) -> Re
                 if !o.controls[p].contains(&un) {
                     return Err(format!("{what}: person {p} could log into account {un:?}, which it does not control"));
                 }
-                o.session[p] = Some(un);
+                o.session[sess] = Some(un);
             }
         }
         Step::Logout { .. } => {
             let r = cl.delete(jar, "/users/logout")?;
             if ok(&r) {
-                o.session[p] = None;
+                o.session[sess] = None;
             }
         }
         Step::Update { u, w, .. } => {
@@ -115,17 +120,17 @@ fn perform(o: &mut Obs, cl: &Client, jar: &mut Jar, step: &Step, p: usize) -> Re
             let r = cl.json(jar, "PUT", "/users/update", &json!({"username": un, "password": pw}))?;
             check_markers(o, p, &r, &what)?;
             if ok(&r) {
-                if let Some(old) = o.session[p].take() {
+                if let Some(old) = o.session[sess].take() {
                     o.controls[p].remove(&old);
                 }
                 o.controls[p].insert(un.clone());
-                o.session[p] = Some(un);
+                o.session[sess] = Some(un);
             }
         }
         Step::DeleteAccount { .. } => {
             let r = cl.delete(jar, "/users/delete")?;
             if ok(&r) {
-                if let Some(old) = o.session[p].take() {
+                if let Some(old) = o.session[sess].take() {
                     o.controls[p].remove(&old);
                 }
             }
@@ -139,7 +144,7 @@ fn perform(o: &mut Obs, cl: &Client, jar: &mut Jar, step: &Step, p: usize) -> Re
             o.counter += 1;
             let m = format!("{}{}", o.marker(p), o.counter);
             let code = format!("s({m}).ac({m},c(v)).s(a).ac(a,neg(a)).");
-            let anonymous = o.session[p].is_none();
+            let anonymous = o.session[sess].is_none();
             let r = cl.multipart(jar, "/adf/add", &[("name", &pname), ("code", &code), ("parsing", if *hybrid { "Hybrid" } else { "Naive" })])?;
             check_markers(o, p, &r, &what)?;
             if ok(&r) && anonymous {
@@ -147,7 +152,7 @@ fn perform(o: &mut Obs, cl: &Client, jar: &mut Jar, step: &Step, p: usize) -> Re
                 if info.status == 200 {
                     if let Some(t) = info.json()?["username"].as_str() {
                         o.controls[p].insert(t.to_string());
-                        o.session[p] = Some(t.to_string());
+                        o.session[sess] = Some(t.to_string());
                     }
                 }
             }
@@ -212,7 +217,7 @@ fn paused_check(c: &PausedCase, st: &mut Stats) -> CheckResult {
     let mut o = Obs {
         pre: format!("c17p{}x{}q", std::process::id(), run),
         controls: vec![BTreeSet::new(), BTreeSet::new(), BTreeSet::new()],
-        session: vec![None, None, None],
+        session: vec![None, None, None, None, None, None],
         counter: 0,
     };
     let mut jars = vec![Jar::default(), Jar::default(), Jar::default()];
@@ -429,6 +434,129 @@ fn paused_check(c: &PausedCase, st: &mut Stats) -> CheckResult {
             "intruder": intruder_steps.iter().map(|s| format!("{s:?}")).collect::<Vec<_>>()}));
     }
     Ok(Outcome::Ok)
+}
+
+/// A person may be logged in on two devices. Case: steps with a device bit.
+#[derive(Clone, Debug, Serialize, Deserialize)]
+pub struct TwoSessionCase {
+    pub steps: Vec<(Step, bool)>,
+}
+
+/// Sequential histories in which persons use two sessions each. Model-free invariants only (marker invariant on every
+/// response, ownership of every stored problem). Open finding K6: the identity cookie is stateless, so a session
+/// survives the deletion / renaming of its account done through the person's other session.
+fn two_session_check(c: &TwoSessionCase, st: &mut Stats) -> CheckResult {
+    let _serial = SERIAL.lock().unwrap_or_else(|e| e.into_inner());
+    let srv = server()?;
+    let cl = srv.client();
+    let run = RUN.fetch_add(1, Ordering::SeqCst);
+    let mut o = Obs {
+        pre: format!("c17s{}x{}q", std::process::id(), run),
+        controls: vec![BTreeSet::new(), BTreeSet::new(), BTreeSet::new()],
+        session: vec![None, None, None, None, None, None],
+        counter: 0,
+    };
+    srv.stub.set_gating(false);
+    let mut jars: Vec<Jar> = (0..6).map(|_| Jar::default()).collect();
+    // a session is stale when it names an account its person gave up (deleted / renamed) through the other session
+    let mut used_stale = false;
+    let mut second_used = 0usize;
+    let mut failure: Option<String> = None;
+    for (i, (step, second)) in c.steps.iter().enumerate() {
+        let p = step.person() % 3;
+        let sess = if *second { p + 3 } else { p };
+        if let Some(name) = &o.session[sess] {
+            if !o.controls[p].contains(name) {
+                used_stale = true;
+            }
+        }
+        second_used += *second as usize;
+        // problems of the OTHER persons (by marker) before the request: a request of p may not delete or move them
+        let foreign = |o: &Obs| -> Vec<(String, String, String)> {
+            let mut v: Vec<(String, String, String)> = srv
+                .stub
+                .snapshot("adf-obdd.adf-problems")
+                .iter()
+                .filter_map(|d| {
+                    let code = d.get_str("code").unwrap_or("").to_string();
+                    let other = (0..3).any(|q| q != p && code.contains(&o.marker(q)));
+                    if other && code.contains(&o.pre) {
+                        Some((code, d.get_str("name").unwrap_or("").to_string(), d.get_str("username").unwrap_or("").to_string()))
+                    } else {
+                        None
+                    }
+                })
+                .collect();
+            v.sort();
+            v
+        };
+        let before = foreign(&o);
+        if let Err(e) = perform_on(&mut o, &cl, &mut jars[sess], step, p, sess) {
+            failure = Some(format!("step {i}: {e}"));
+            break;
+        }
+        let after = foreign(&o);
+        if let Some(lost) = before.iter().find(|b| !after.contains(b)) {
+            failure = Some(format!(
+                "step {i} {step:?} of person {p}{}: a problem of another person (name {:?}, account {:?}, code {:?}) was deleted or moved by this request",
+                if *second { " (second session)" } else { "" },
+                lost.1,
+                lost.2,
+                lost.0
+            ));
+            break;
+        }
+        if let Err(e) = db_invariants(&o, srv, &format!("after step {i} {step:?}{}", if *second { " (second session)" } else { "" })) {
+            failure = Some(e);
+            break;
+        }
+    }
+    if let Some(e) = failure {
+        if used_stale && (e.contains("contains data of person") || e.contains("does not control") || e.contains("could log into account") || e.contains("was deleted or moved by this request")) {
+            return crate::known::known_or_fail("K6-stale-session", e);
+        }
+        return Err(e);
+    }
+    if second_used > 0 {
+        st.label(if used_stale { "second-session:used-after-its-account-was-given-up" } else { "second-session:fresh" });
+        st.nontrivial(stable_hash(&format!("{c:?}")), || json!({"steps": c.steps.iter().map(|(s, d)| format!("{s:?}{}", if *d { " [2nd session]" } else { "" })).collect::<Vec<_>>()}));
+    }
+    Ok(Outcome::Ok)
+}
+
+pub fn two_session_part(tier: Tier) -> Box<dyn DynPart> {
+    Part::with_shrink(
+        "second-session",
+        tier.pick(120, 1500),
+        60,
+        || {
+            let free = proptest::collection::vec((step_strategy(), proptest::bool::weighted(0.35)), 4..16);
+            // directed: p is logged in twice, gives the account up on the first session, q takes the name, p's second session goes on
+            let directed = (0u8..3, 0u8..3, 0u8..3, any::<bool>(), proptest::collection::vec((step_strategy(), proptest::bool::weighted(0.5)), 0..5)).prop_map(|(p, q, u, rename, tail)| {
+                let q = if q == p { (q + 1) % 3 } else { q };
+                let mut v = vec![
+                    (Step::Register { p, u, w: 0 }, false),
+                    (Step::Login { p, u, w: 0 }, false),
+                    (Step::Login { p, u, w: 0 }, true),
+                    (Step::Add { p, name: 0, hybrid: false }, false),
+                    (if rename { Step::Update { p, u: (u + 1) % 3, w: 0 } } else { Step::DeleteAccount { p } }, false),
+                    (Step::Register { p: q, u, w: 0 }, false),
+                    (Step::Login { p: q, u, w: 0 }, false),
+                    (Step::Add { p: q, name: 1, hybrid: false }, false),
+                    (Step::List { p }, true),
+                    (Step::Get { p, name: 1 }, true),
+                    (Step::Add { p, name: 2, hybrid: false }, true),
+                    (Step::List { p: q }, false),
+                    (Step::DeleteProblem { p, name: 1 }, true),
+                    (Step::List { p: q }, false),
+                ];
+                v.extend(tail);
+                v
+            });
+            prop_oneof![2 => free, 1 => directed].prop_map(|steps| TwoSessionCase { steps }).boxed()
+        },
+        two_session_check,
+    )
 }
 
 pub fn paused_part(tier: Tier) -> Box<dyn DynPart> {
